@@ -215,6 +215,7 @@ struct SClient {
         uint64_t model_hash = 0;
         std::vector<uint64_t> boundaries, model_boundaries;
         bool huge = false;
+        bool noreset = false; // rolling: run straight after init (no model, C20 and the monitors only)
         // gcm
         int ks = 0;
         bool dec = false, inplace = false, nt = false;
@@ -345,6 +346,10 @@ struct StreamSim : Sim {
                                 if (g.chance(1, 5))
                                         p.cfg[k + "trigger"] = 0;
                                 p.cfg[k + "twin"] = (i > 0 && g.chance(1, 3)) ? 1 : 0;
+                                // 1 rolling client in 8 runs straight after init, without a reset (the header calls the reset window "optional"):
+                                // no model for that (which window init leaves behind is the library's choice), but the result must not depend on
+                                // what the state object's memory held before (C20)
+                                p.cfg[k + "noreset"] = (!p.cfg[k + "twin"] && g.chance(1, 8)) ? 1 : 0;
                         } else {
                                 p.cfg[k + "fam"] = (int64_t) g.below(4);
                                 p.cfg[k + "ks"] = (int64_t) g.below(2);
@@ -609,6 +614,13 @@ struct StreamSim : Sim {
                                 e.violation("C09", "init-failed", "C09/init-failed", strfmt("isal_rolling_hash2_init(w=%u) returned %d", c.w, (int) rc));
                 } else
                         e.call("_rolling_hash2_init", S.roll_init, { U(c.ctx), c.w });
+                c.noreset = s.p->get(strfmt("c%d_noreset", ci).c_str()) != 0 && c.epoch == 0;
+                if (c.noreset) {
+                        s.r->cov.hit("probe_rolling_run_without_reset");
+                        c.boundaries.clear();
+                        c.model_boundaries.clear();
+                        return;
+                }
                 uint8_t *init = e.mem.alloc(c.w, 1, (Place) (ci % 2), nullptr, "rolling init bytes", R_INPUT);
                 if (!c.init_seed)
                         c.init_seed = mix64(s.p->seed, 0x1717 + (uint64_t) ci * 16 + (uint64_t) c.epoch) | 1;
@@ -702,6 +714,16 @@ struct StreamSim : Sim {
                         // the model scans one period + w incrementally (the stream is periodic); no hit by construction
                         mm = 0;
                         moff = (uint32_t) n;
+                } else if (c.noreset) {
+                        // no model: follow what the library reports (it must at least stay inside the call's range)
+                        mm = m == ISAL_FINGERPRINT_RET_HIT;
+                        moff = *off;
+                        if ((uint64_t) *off > n) {
+                                e.violation("C09", "offset-out-of-range", std::string("C09/offset-out-of-range/rolling_hash2/") + roll_impls[c.fam],
+                                            strfmt("run over %llu bytes reported offset %u", (unsigned long long) n, *off));
+                                moff = (uint32_t) n;
+                        }
+                        c.model_hash = st->hash;
                 } else {
                         mm = c.model.run(c.stream.data() + c.pos, (uint32_t) n, c.mask, c.trigger, &moff);
                         c.model_hash = c.model.hash();
@@ -1200,7 +1222,7 @@ struct StreamSim : Sim {
                 // rolling twins: identical boundary lists
                 for (int i = 1; i < nc; i++)
                         if (s.cl[i].kind == K_ROLL && p.get(strfmt("c%d_twin", i).c_str()) && s.cl[i - 1].kind == K_ROLL && s.cl[i].epoch == 0 && s.cl[i - 1].epoch == 0 &&
-                            !s.cl[i].huge && !s.cl[i - 1].huge && s.cl[i].stream == s.cl[i - 1].stream && s.cl[i].w == s.cl[i - 1].w) {
+                            !s.cl[i].huge && !s.cl[i - 1].huge && !s.cl[i].noreset && !s.cl[i - 1].noreset && s.cl[i].stream == s.cl[i - 1].stream && s.cl[i].w == s.cl[i - 1].w) {
                                 // both consumed the whole stream; compare up to the shorter consumed prefix
                                 if (s.cl[i].boundaries != s.cl[i - 1].boundaries)
                                         e.violation("C09", "twin-boundaries", "C09/twin-boundaries",
